@@ -710,7 +710,8 @@ class VMF:
             else:
                 self.node_id.discard(node_id)
 
-        self.ent_id.discard(item.id)
+        # The entity's ID stays reserved until the object itself is destroyed (see __del__):
+        # it can still be re-added with add_ent(), and must not collide with an entity created meanwhile.
 
     def add_brushes(self, brushes: Iterable['Solid']) -> None:
         """Add multiple brushes to the map."""
